@@ -47,7 +47,13 @@ R1 == {List(S("i")), List(S("s")), List(S("C")), List(S("m")), Map(S("s"), S("i"
        Struct(N_Q, <<N_a, N_b>>, <<S("i"), S("s")>>), Struct(N_P, <<N_a>>, <<S("m")>>),
        Struct(N_P, <<N_a>>, <<S("c")>>)}
 Wrap(c) == {List(c), Map(S("s"), c), Tup(<<S("C"), c>>), Struct(N_R, <<N_x, N_y>>, <<c, S("w")>>)}
-L2 == UNION {Wrap(c) : c \in R1}
+(* containers of members that have a FIXED size on the wire but different widths (a Go struct of them is   *)
+(* padded, the wire is not): every adjacent pair of scalar kinds as list element and as map value, and a    *)
+(* tuple of fixed-size members holding another one                                                          *)
+FixedMixed == {List(p) : p \in Pairs} \cup {Map(S("s"), p) : p \in Pairs}
+              \cup {List(Tup(<<S("b"), Tup(<<S("i"), S("l")>>)>>)), List(Tup(<<S("b"), S("i")>>)),
+                    List(Struct(N_Q, <<N_a, N_b>>, <<S("c"), S("L")>>))}
+L2 == UNION {Wrap(c) : c \in R1} \cup FixedMixed
 R2 == {List(List(S("s"))), Map(S("s"), List(S("m"))), Tup(<<S("C"), Map(S("s"), S("i"))>>),
        List(Struct(N_Q, <<N_a, N_b>>, <<S("i"), S("s")>>)), Map(S("s"), Map(S("s"), S("m"))),
        Struct(N_R, <<N_x, N_y>>, <<List(S("m")), S("w")>>)}
